@@ -1,26 +1,333 @@
 """C17 - any sequence of public operations keeps an ACL consistent with a reference model."""
 from __future__ import annotations
 
+import itertools
 import random
 
-from harness import core
+from harness import core, acegen, addrgen as ag, cisco_reader as cr
 from harness.kernels import ops
 
 LEVEL = "proof"
 MODEL_TARGETS = ["run/RunOps.vo"]
-RULE = "histories"
+RULE = ("operation histories over the alphabet platform(ios|nxos), port_nr, protocol_nr, type, resequence(start, step), "
+        "group(by) / ungroup, sort, reverse, insert(i, ACE), pop(i), copy, export/import (data with identifiers), "
+        "re-parse, delete_shadow, ungroup_ports: random histories of length 1..8 from generated extended ACLs "
+        "(remarks, heading remarks, related ACEs so that shadows exist, multi-port eq, names/numbers), and ALL "
+        "histories up to length 2 (quick) / 3 (thorough) over a 14-operation alphabet from three seed ACLs. After every "
+        "step: model (coq/model/Ops.v) vs implementation on text, flags, grouping, identifiers; on the implementation "
+        "alone: the text parses back to itself, the rule list read by the independent reader equals the reference "
+        "prediction, and the same operation applied to a freshly built equal object gives the same text. "
+        "Non-trivial = history with >= 2 successful steps; distinct = distinct (ACL text, operation list).")
+SEED_ACLS = [
+    {"platform": "ios", "port_nr": False, "protocol_nr": False,
+     "body": ["remark = B1", "10 permit tcp any eq 1 2 any eq www", "20 deny udp any any range 5 6", "remark = B2",
+              "30 permit ip host 1.1.1.1 any", "remark plain", "40 permit tcp any any eq 443 8080",
+              "50 permit tcp host 10.0.0.1 any eq 443"]},
+    {"platform": "nxos", "port_nr": False, "protocol_nr": False,
+     "body": ["permit tcp 10.0.0.0/24 any eq 22", "remark = B1", "permit tcp 10.0.0.0/25 any eq 22 log",
+              "deny 47 any 192.168.0.0 0.0.3.255", "permit ip any any"]},
+    {"platform": "ios", "port_nr": True, "protocol_nr": True,
+     "body": ["5 remark = B1", "7 permit 6 any any range 514 515", "9 permit udp any eq 514 any",
+              "11 remark = B1", "13 deny ip 10.0.0.0 0.255.255.255 any", "15 deny ip 10.1.0.0 0.0.255.255 any"]},
+]
+EXH_OPS = [["platform", "ios"], ["platform", "nxos"], ["port_nr", True], ["protocol_nr", True], ["type_ext"],
+           ["resequence", 10, 10], ["group", "= "], ["ungroup"], ["sort"], ["reverse"], ["copy"], ["import_uuid"],
+           ["delete_shadow"], ["ungroup_ports"]]
 
 
+# ------------------------------------------------------------------ reference model (rule lists)
+def _rule_of(line, plat):
+    """one text line -> ('remark', seq, text) | ('ace', seq, abstract)"""
+    toks = line.split()
+    if "remark" in toks[:2]:
+        seq = int(toks[0]) if toks[0].isdigit() else 0
+        i = toks.index("remark")
+        return ("remark", seq, " ".join(toks[i + 1:]))
+    r = cr.read_ace(line, plat)
+    return ("ace", r["seq"] or 0, r)
+
+
+def _sem(r):
+    """what a rule matches, as a comparable value"""
+    if r[0] == "remark":
+        return ("remark", r[2])
+    a = r[2]
+
+    def pset(p):
+        if p is None:
+            return None
+        op, xs = p
+        return (op, tuple(sorted(xs))) if op in ("eq", "neq") else (op, tuple(xs) if op != "range" else (min(xs), max(xs)))
+    return ("ace", a["permit"], a["proto"], tuple(a["src"]), tuple(a["dst"]), pset(a["sport"]), pset(a["dport"]),
+            tuple(sorted(a["flags"])))
+
+
+def _split_eq(r):
+    if r[0] != "ace":
+        return [r]
+    a = r[2]
+    s_list = [None] if not a["sport"] else ([("eq", [x]) for x in a["sport"][1]] if a["sport"][0] == "eq" else
+                                             ([("neq", [x]) for x in a["sport"][1]] if a["sport"][0] == "neq" else [a["sport"]]))
+    d_list = [None] if not a["dport"] else ([("eq", [x]) for x in a["dport"][1]] if a["dport"][0] == "eq" else
+                                             ([("neq", [x]) for x in a["dport"][1]] if a["dport"][0] == "neq" else [a["dport"]]))
+    out = []
+    for s in s_list:
+        for d in d_list:
+            out.append(("ace", r[1], dict(a, sport=s, dport=d)))
+    return out
+
+
+def _covers(top, bot):
+    """packet set of bot inside packet set of top (both group-free), same action"""
+    t, b = top[2], bot[2]
+    if t["permit"] != b["permit"]:
+        return False
+    if t["proto"] != 0 and t["proto"] != b["proto"]:
+        return False
+    for f in ("src", "dst"):
+        if not ag.subset(b[f][0], b[f][1], t[f][0], t[f][1]):
+            return False
+    for f in ("sport", "dport"):
+        if t[f] is None:
+            continue
+        if b[f] is None:
+            return False
+        if not cr.port_set(b[f]) <= cr.port_set(t[f]):
+            return False
+    return set(t["flags"]) <= set(b["flags"]) if t["flags"] else True
+
+
+def _regroup(rules, by):
+    buckets, cur = {"": []}, ""
+    for r in rules:
+        if r[0] == "remark" and r[2].startswith(by):
+            cur = r[2]
+            if cur not in buckets:
+                buckets[cur] = [r]
+            continue
+        buckets[cur].append(r)
+    return [v for v in buckets.values() if v]
+
+
+class Ref:
+    """the reference model: an ordered list of rules, possibly in blocks"""
+
+    def __init__(self, lines, plat):
+        self.plat = plat
+        self.blocks = [[_rule_of(l, plat)] for l in lines]      # ungrouped: one rule per block
+        self.block_seq = None                                  # sequence numbers of the blocks when grouped
+        self.by = ""
+
+    def flat(self):
+        return [r for b in self.blocks for r in b]
+
+    def _set_flat(self, rules):
+        if self.by:
+            self.blocks = _regroup(rules, self.by)
+            self.block_seq = None
+        else:
+            self.blocks = [[r] for r in rules]
+
+    def apply(self, op, norm=None):
+        k = op[0]
+        if k == "platform":
+            if op[1] == "nxos":
+                self.blocks = [[x for r in b for x in _split_eq(r)] for b in self.blocks]
+                if not self.by:
+                    self.blocks = [[r] for b in self.blocks for r in b]
+                else:
+                    self._set_flat(self.flat())
+            self.plat = op[1]
+        elif k == "ungroup_ports":
+            self._set_flat([x for r in self.flat() for x in _split_eq(r)])
+        elif k in ("port_nr", "protocol_nr", "type_ext", "copy", "import_uuid"):
+            if self.by:
+                self._set_flat(self.flat())
+        elif k == "reparse":
+            self.by = ""
+            self._set_flat(self.flat())
+        elif k == "group":
+            if op[1]:
+                self.by = op[1]
+                self._set_flat(self.flat())
+        elif k == "ungroup":
+            self.by = ""
+            self._set_flat(self.flat())
+        elif k == "reverse":
+            self.blocks.reverse()
+        elif k == "pop":
+            self.blocks.pop(op[1])
+        elif k == "insert":
+            # the new entry in the library's own normal spelling (parsing one line is C01's business)
+            self.blocks.insert(op[1], [_rule_of(norm(op[2]) if norm else op[2], self.plat)])
+        elif k == "resequence":
+            n, step = op[1], (op[2] if op[1] else 0)
+            out = []
+            for bi, b in enumerate(self.blocks):
+                nb = []
+                for ri, r in enumerate(b):
+                    nb.append((r[0], n, r[2]))
+                    if not (bi == len(self.blocks) - 1 and ri == len(b) - 1):
+                        n += step
+                out.append(nb)
+            self.blocks = out
+        elif k == "sort":
+            key = (lambda b: b[-1][1]) if self.by else (lambda b: b[0][1])
+            self.blocks.sort(key=key)
+        elif k == "delete_shadow":
+            rules = self.flat()
+            aces = [(i, r) for i, r in enumerate(rules) if r[0] == "ace"]
+            drop = set()
+            for x, (i, top) in enumerate(aces):
+                for (j, bot) in aces[x + 1:]:
+                    if _covers(top, bot):
+                        drop.add(j)
+            if drop:
+                self._set_flat([r for i, r in enumerate(rules) if i not in drop])
+        else:
+            raise KeyError(k)
+
+
+def _impl_rules(a, plat):
+    lines = [s.strip() for s in a.line.split("\n")[1:] if s.strip()]
+    return [_rule_of(l, plat) for l in lines]
+
+
+def check_history(ca, spec, fresh_check=True):
+    """the three clauses of C17 on the implementation alone -> failure dict or None"""
+    try:
+        a = ops.build(ca, spec)
+    except Exception:  # noqa
+        return None
+    plat = spec["platform"]
+    try:
+        ref = Ref([s.strip() for s in a.line.split("\n")[1:] if s.strip()], plat)
+    except cr.ReadError as ex:
+        return {"what": f"initial ACL text is not valid {plat} syntax for the independent reader: {ex}", "step": -1}
+    for i, op in enumerate(spec["ops"]):
+        # clause 3: the same operation on a freshly built equal object
+        twin = None
+        if fresh_check and op[0] not in ("copy", "import_uuid", "reparse"):
+            try:
+                twin = ca.Acl(a.line, platform=a.platform, port_nr=a.port_nr, protocol_nr=a.protocol_nr)
+                if a.group_by:
+                    twin.group(a.group_by)
+                if [o.sequence for o in twin.items] != [o.sequence for o in a.items]:
+                    twin = None      # block numbers are state of their own (set by resequence), not text
+            except Exception:  # noqa
+                twin = None
+        try:
+            a = ops.apply_op(ca, a, op)
+        except Exception as ex:  # noqa
+            if known_exception(op, ex, a):
+                return None
+            return {"what": f"step {i} {op}: raised {type(ex).__name__}: {str(ex)[:140]}", "step": i,
+                    "exc": type(ex).__name__}
+        plat = a.platform
+        # clause 1: the text parses back to itself
+        try:
+            again = ca.Acl(a.line, platform=a.platform, port_nr=a.port_nr, protocol_nr=a.protocol_nr)
+            if again.line != a.line:
+                return {"what": f"step {i} {op}: the text does not parse back to itself: {a.line!r} -> {again.line!r}", "step": i}
+        except Exception as ex:  # noqa
+            return {"what": f"step {i} {op}: the rendered text is rejected: {type(ex).__name__}: {str(ex)[:120]}", "step": i}
+        # clause 2: the rule list is the predicted one
+        try:
+            ref.apply(op, norm=lambda t, a=a: ca.Ace(t, platform=a.platform).line)
+            got = _impl_rules(a, plat)
+        except cr.ReadError as ex:
+            return {"what": f"step {i} {op}: text not valid {plat} syntax: {ex}", "step": i}
+        want = ref.flat()
+        if [_sem(r) for r in got] != [_sem(r) for r in want] or [r[1] for r in got] != [r[1] for r in want]:
+            k = next((j for j, (x, y) in enumerate(itertools.zip_longest(got, want))
+                      if x is None or y is None or _sem(x) != _sem(y) or x[1] != y[1]), 0)
+            return {"what": f"step {i} {op}: rule {k} differs from the reference prediction "
+                            f"(lines now: {[s.strip() for s in a.line.split(chr(10))[1:]][max(0, k - 1):k + 2]})", "step": i}
+        # clause 3
+        if twin is not None:
+            try:
+                twin = ops.apply_op(ca, twin, op)
+                if twin.line != a.line:
+                    return {"what": f"step {i} {op}: the result depends on the history: {a.line!r} after the history, "
+                                    f"{twin.line!r} on a freshly built equal object", "step": i}
+            except Exception as ex:  # noqa
+                return {"what": f"step {i} {op}: fails on a freshly built equal object only: {type(ex).__name__}", "step": i}
+    return None
+
+
+def known_exception(op, ex, a):
+    """exceptions that are the documented answer of the operation (not failures of C17)"""
+    if op[0] == "resequence" and isinstance(ex, ValueError):
+        return True        # number range exhausted / refused arguments
+    if op[0] == "delete_shadow" and isinstance(ex, TypeError):
+        return True        # non-contiguous wildcards cannot be compared (documented, skip=[...] avoids it)
+    return False
+
+
+# ------------------------------------------------------------------ the check
 def correspond(ctx):
     ca = core.impl_module()
     rnd = random.Random(ctx.seed)
-    n = 300 if ctx.tier == "quick" else 6000
+    n = 220 if ctx.tier == "quick" else 5000
     specs = [ops.gen_history(rnd, ca, ops.ALL_OPS, rnd.randint(1, 8)) for _ in range(n)]
+    # all histories up to a bounded length from the seed ACLs
+    depth = 2 if ctx.tier == "quick" else 3
+    exh = 0
+    for seed_acl in SEED_ACLS:
+        for d in range(1, depth + 1):
+            for combo in itertools.product(EXH_OPS, repeat=d):
+                if d == depth and ctx.tier == "quick" and rnd.random() < 0.5:
+                    continue            # quick: half of the longest layer (the thorough tier takes all)
+                spec = dict(seed_acl, ops=[list(o) for o in combo])
+                if not _sort_modelled(ca, spec):
+                    continue            # sort() with equal sequence numbers is outside the model (DESIGN 6 C17)
+                specs.append(spec)
+                exh += 1
     cases = ops.cases_for(ca, specs)
-    core.eval_cases(ctx, "K-history", ops.IMPORTS, cases, chunk=max(5, len(cases) // 16 + 1))
+    ctx.samples += [specs[0], specs[-1]]
+    dist, ok_steps = {}, 0
+    nontrivial = set()
+    for s, c in zip(specs, cases):
+        for o in s["ops"]:
+            dist[o[0]] = dist.get(o[0], 0) + 1
+        good = sum(1 for x in c.impl[1:] if not isinstance(x, core.Err)) if isinstance(c.impl, list) else 0
+        ok_steps += good
+        if good >= 2:
+            nontrivial.add(repr((s["body"], s["ops"])))
+    ctx.coverage["input_distribution"] = {"random_histories": n, "exhaustive_histories": exh, "operations": dist,
+                                          "successful_steps": ok_steps}
+    ctx.coverage["distinct_nontrivial"] = len(nontrivial)
+    core.eval_cases(ctx, "K-history", ops.IMPORTS, cases, chunk=max(5, len(cases) // 32 + 1))
+    for s in specs:
+        f = check_history(ca, s)
+        if f and not matches_known(ctx, "K-history", s, f):
+            raise core.ImplViolation(dict(kind="input", kernel="K-history", input=dict(s, k="history"), failure=f))
+
+
+def _sort_modelled(ca, spec):
+    try:
+        a = ops.build(ca, spec)
+        for op in spec["ops"]:
+            if op[0] == "sort":
+                seqs = [o.sequence for o in a.items]
+                if len(set(seqs)) != len(seqs):
+                    return False
+            a = ops.apply_op(ca, a, op)
+    except Exception:  # noqa
+        pass
+    return True
 
 
 def oracle(ctx, kernel, meta):
+    ca = core.impl_module()
+    if meta.get("k") != "history":
+        return None
+    # shortest failing prefix
+    for n in range(1, len(meta["ops"]) + 1):
+        f = check_history(ca, dict(meta, ops=meta["ops"][:n]))
+        if f:
+            f["prefix"] = n
+            return f
     return None
 
 
